@@ -165,4 +165,29 @@ theorem fuzzyCollect_mem (T : Tuning S) (db : Db) (o : Opts S) (cap : Nat) (ms :
               · exact Or.inl h
             · exact lift (Or.inr h)
 
+/-- every result of the typo fallback exists in the database and passed the gate -/
+theorem fuzzySearch_entries (T : Tuning S) (db : Db) (nq : Bytes) (o : Opts S) (limit : Nat)
+    {r : List (Nat × S)} (h : fuzzySearch T db nq o limit = .ok r) :
+    ∃ ms, Fuzzy.findNoSort T.ri nq (db.map fuzzyTarget) = .ok ms ∧
+      r = (fuzzyCollect T db o (limit * fuzzyMult) (T.fuzzySort ms) []).take limit ∧
+      ∀ x ∈ r, FuzzyEntry T db o (T.fuzzySort ms) x := by
+  unfold fuzzySearch at h
+  split at h
+  · cases h
+  · rename_i ms hms
+    injection h with h
+    refine ⟨ms, hms, h.symm, ?_⟩
+    intro x hx
+    rw [← h] at hx
+    rcases fuzzyCollect_mem T db o _ _ [] x (List.mem_of_mem_take hx) with h0 | h0
+    · cases h0
+    · exact h0
+
+theorem fuzzySearch_eligible (T : Tuning S) (db : Db) (nq : Bytes) (o : Opts S) (limit : Nat)
+    {r : List (Nat × S)} (h : fuzzySearch T db nq o limit = .ok r) : ∀ x ∈ r, Eligible T db o x.1 := by
+  obtain ⟨ms, _, _, hall⟩ := fuzzySearch_entries T db nq o limit h
+  intro x hx
+  obtain ⟨_, _, he, _⟩ := hall x hx
+  exact he
+
 end Wtf.Search
